@@ -26,8 +26,6 @@ Definition is_utf16 (n : str) : bool := starts_with [117;116;102;45;49;54] n.
 Definition detect_bom (b : str) : option str :=
   match b with
   | 239 :: 187 :: 191 :: _ => lookup utf8
-  | [255; 254; 0; 0] => lookup [117;116;102;45;51;50;108;101]        (* utf-32le: not a webencodings label *)
-  | [0; 0; 254; 255] => lookup [117;116;102;45;51;50;98;101]
   | 255 :: 254 :: _ => lookup utf16le
   | 254 :: 255 :: _ => lookup utf16be
   | _ => None
@@ -82,18 +80,31 @@ Definition is_sp (c : N) : bool := is_space c.
 Definition is_sp_or_slash (c : N) : bool := is_space c || (c =? 47).
 Definition is_sp_angle (c : N) : bool := is_space c || (c =? 62) || (c =? 60).
 
-(* ContentAttrParser.parse on the (lower-cased) attribute value *)
-Definition content_charset (v : str) : option str :=
-  let charset := [99;104;97;114;115;101;116] in
-  match find_from v charset (S (length v)) 0 with
-  | None => None
-  | Some i =>
-      let p := (i + 7)%nat in                                   (* position += 1 after jumpTo *)
-      match skip v is_sp p with
+(* ContentAttrParser.parse on the (lower-cased) attribute value.  The search for "charset" followed by "=" loops
+   and an unquoted value ends at ";" as well (both repaired in /repo) *)
+Definition is_sp_or_semi (c : N) : bool := is_space c || (c =? 59).
+Fixpoint content_find (fuel : nat) (v : str) (from : nat) : option nat :=       (* the position of the "=" *)
+  match fuel with
+  | O => None
+  | S k =>
+      match find_from v [99;104;97;114;115;101;116] (S (length v)) from with
       | None => None
-      | Some (_, p1) =>
-          match current v p1 with
-          | Some 61 =>
+      | Some i =>
+          match skip v is_sp (i + 7)%nat with                   (* position += 1 after jumpTo *)
+          | None => None
+          | Some (_, p1) =>
+              match current v p1 with
+              | Some 61 => Some p1
+              | Some _ => content_find k v p1
+              | None => None
+              end
+          end
+      end
+  end.
+Definition content_charset (v : str) : option str :=
+  match content_find (S (length v)) v 0 with
+  | None => None
+  | Some p1 =>
               match skip v is_sp (S p1) with
               | None => None
               | Some (_, p2) =>
@@ -109,15 +120,12 @@ Definition content_charset (v : str) : option str :=
                                       end
                         end
                       else
-                        match scan v is_sp (S (length v)) p2 with
+                        match scan v is_sp_or_semi (S (length v)) p2 with
                         | (Some _, j) => Some (firstn (j - p2) (skipn p2 v))
                         | (None, _) => Some (skipn p2 v)
                         end
                   end
               end
-          | _ => None
-          end
-      end
   end.
 
 Section Parser.
@@ -268,7 +276,8 @@ Section Parser.
     | Some p1 =>
         match current d p1 with
         | None => inr None
-        | Some c => if negb (is_space c) && negb (c =? 47) then inr (Some p1)
+        | Some c => if negb (is_space c) && negb (c =? 47)
+                    then inr (handle_tag false (p1 - 4))       (* some other tag name (repaired in /repo) *)
                     else match meta_attrs (S (len d)) p1 false None with
                          | None => inr None
                          | Some (inl e) => inl e
@@ -315,7 +324,9 @@ Definition prescan (raw : str) : option str :=
 (* detectEncodingMeta: the first numBytesMeta bytes; utf-16 means utf-8 *)
 Definition detect_meta (raw : str) : option str :=
   match prescan (firstn (N.to_nat numBytesMeta) raw) with
-  | Some e => if str_eqb e utf16le || str_eqb e utf16be then lookup utf8 else Some e
+  | Some e => if str_eqb e utf16le || str_eqb e utf16be then lookup utf8
+              else if str_eqb e [120;45;117;115;101;114;45;100;101;102;105;110;101;100] then lookup win1252   (* x-user-defined *)
+              else Some e
   | None => None
   end.
 
